@@ -1,4 +1,5 @@
 import ParryModel.C17.CutLemmas
+import ParryModel.C17.Theorems2
 /-!
 # C17 property theorems, part 4: `TriMesh::local_split` (cutting part) — totality, sides, conservation
 
@@ -202,6 +203,45 @@ theorem local_split_pair_area (hs : LawfulSqrt sq) (verts : List (V3 K)) (tris :
   · intro N w _; simp only [V3.smul]; ring
   · intro N w _; simp only [V3.smul]; ring
   · intro N w _; simp only [V3.smul]; ring
+
+/-! ## world-space and canonical-axis wrappers: `TriMesh::split`, `TriMesh::canonical_split` -/
+
+/-- **C17 (`TriMesh::split`, wrapper = local ∘ plane transfer)**: the world-space split never panics on a valid mesh, and when it
+returns `Pair(l, r)` (vertices in the mesh's local frame, as coded) the *placed* vertices `position * p` of `l` / `r` are within
+`eps` of the negative / positive side of the requested world plane `(axis, bias)` — for every pose, unit quaternion or not —
+and the halves conserve every positively homogeneous functional of the vector area of the (local) triangles. -/
+theorem split_world_pair (verts : List (V3 K)) (tris : List Tri) (pos : Iso3 K) (n : V3 K) (bias eps : K) (he : 0 ≤ eps) :
+    letI := fieldNum K sq
+    (validMesh verts.length tris = true → (splitUncapped verts tris pos n bias eps).isSome = true) ∧
+    ∀ vl vr il ir, splitUncapped verts tris pos n bias eps = some (.pair (vl, il) (vr, ir)) →
+      (∀ p ∈ vl, (pos.act p).dot n - bias ≤ eps) ∧ (∀ p ∈ vr, -eps ≤ (pos.act p).dot n - bias) ∧
+      ∀ g : V3 K → K, Homog g →
+        (il.map fun t => g (triNT (C17.pos vl.toArray t))).sum + (ir.map fun t => g (triNT (C17.pos vr.toArray t))).sum =
+          (tris.map fun t => g (triNT (C17.pos verts.toArray t))).sum := by
+  letI : Num K := fieldNum K sq
+  refine ⟨fun hv => local_split_never_panics sq verts tris _ _ eps he hv, ?_⟩
+  intro vl vr il ir hres
+  obtain ⟨h1, h2, _, _, h5⟩ := local_split_pair_conserves sq verts tris _ _ eps he vl vr il ir hres
+  refine ⟨fun p hp => ?_, fun p hp => ?_, h5⟩
+  · rw [← plane_to_local_signed_distance sq pos n bias p]; exact h1 p hp
+  · rw [← plane_to_local_signed_distance sq pos n bias p]; exact h2 p hp
+
+/-- **C17 (`TriMesh::canonical_split`)**: same for the canonical axes, on the coordinate `p[axis]`. -/
+theorem canonical_split_pair (verts : List (V3 K)) (tris : List Tri) (i : Fin 3) (bias eps : K) (he : 0 ≤ eps) :
+    letI := fieldNum K sq
+    (validMesh verts.length tris = true → (canonicalSplitUncapped verts tris i bias eps).isSome = true) ∧
+    ∀ vl vr il ir, canonicalSplitUncapped verts tris i bias eps = some (.pair (vl, il) (vr, ir)) →
+      (∀ p ∈ vl, p.get i.val - bias ≤ eps) ∧ (∀ p ∈ vr, -eps ≤ p.get i.val - bias) ∧
+      ∀ g : V3 K → K, Homog g →
+        (il.map fun t => g (triNT (C17.pos vl.toArray t))).sum + (ir.map fun t => g (triNT (C17.pos vr.toArray t))).sum =
+          (tris.map fun t => g (triNT (C17.pos verts.toArray t))).sum := by
+  letI : Num K := fieldNum K sq
+  refine ⟨fun hv => local_split_never_panics sq verts tris _ _ eps he hv, ?_⟩
+  intro vl vr il ir hres
+  obtain ⟨h1, h2, _, _, h5⟩ := local_split_pair_conserves sq verts tris _ _ eps he vl vr il ir hres
+  refine ⟨fun p hp => ?_, fun p hp => ?_, h5⟩
+  · rw [← (ith_axis_dot sq i p).1]; exact h1 p hp
+  · rw [← (ith_axis_dot sq i p).1]; exact h2 p hp
 
 /-- non-vacuity: a two-triangle open sheet cut through two edges of each triangle (one crossing point shared through the
 `SortedPair` table): `Pair` with 5 + 5 vertices and 3 + 3 triangles (model evaluated over `ℚ`). -/
